@@ -49,10 +49,10 @@ fn spin<F: Future>(f: F) -> Result<F::Output, &'static str> {
 }
 
 fn fnv64(b: &[u8]) -> u64 {
-    let mut h: u64 = 0xcbf29ce484222325;
+    // not FNV any more: h := 33 h ^ b from 5381 on 64 bits (cheap for the extracted Coq model to mirror)
+    let mut h: u64 = 5381;
     for x in b {
-        h ^= *x as u64;
-        h = h.wrapping_mul(0x100000001b3);
+        h = h.wrapping_mul(33) ^ (*x as u64);
     }
     h
 }
@@ -349,11 +349,351 @@ fn frame(w: &[&str]) -> String {
     format!("{};calls={};pos={}", toks.join(","), st.calls, st.pos)
 }
 
+// ------------------------------------------------------------------ C15: serial numbers
+fn serial_via(kind: &str) -> u32 {
+    match kind {
+        // the cheapest public entry to the counter
+        "hdr" => zbus::message::PrimaryHeader::new(zbus::message::Type::Signal, 0).serial_num().get(),
+        // a complete message through the builder
+        _ => zbus::message::Message::method_call("/a", "M")
+            .unwrap()
+            .build(&())
+            .unwrap()
+            .primary_header()
+            .serial_num()
+            .get(),
+    }
+}
+
+fn join_u32(v: &[u32]) -> String {
+    v.iter().map(|x| x.to_string()).collect::<Vec<_>>().join(",")
+}
+
+fn serial(w: &[&str]) -> String {
+    let arg = |i: usize| -> Option<u64> { w.get(i).and_then(|x| x.parse().ok()) };
+    // every case starts with one probe build: afterwards the counter is probe + 1 (mod 2^32)
+    match w.get(1).copied() {
+        Some("seq") | Some("hdr") => {
+            let n = match arg(2) {
+                Some(n) => n,
+                None => return "BADCASE".into(),
+            };
+            let kind = if w[1] == "hdr" { "hdr" } else { "msg" };
+            let probe = serial_via("hdr");
+            let v: Vec<u32> = (0..n).map(|_| serial_via(kind)).collect();
+            format!("start={};{}", probe, join_u32(&v))
+        }
+        Some("thr") => {
+            let (t, n) = match (arg(2), arg(3)) {
+                (Some(t), Some(n)) if t >= 1 && t <= 64 => (t as usize, n as usize),
+                _ => return "BADCASE".into(),
+            };
+            let kind: &'static str = if w.get(4).copied() == Some("msg") { "msg" } else { "hdr" };
+            let probe = serial_via("hdr");
+            // spin start: all threads leave the gate within nanoseconds of each other, so that they really contend
+            let ready = Arc::new(std::sync::atomic::AtomicUsize::new(0));
+            let hs: Vec<_> = (0..t)
+                .map(|_| {
+                    let r = ready.clone();
+                    std::thread::spawn(move || {
+                        r.fetch_add(1, std::sync::atomic::Ordering::SeqCst);
+                        while r.load(std::sync::atomic::Ordering::SeqCst) < t {
+                            std::hint::spin_loop();
+                        }
+                        let mut v = Vec::with_capacity(n);
+                        for _ in 0..n {
+                            v.push(serial_via(kind));
+                        }
+                        v
+                    })
+                })
+                .collect();
+            let lists: Vec<String> = hs.into_iter().map(|h| join_u32(&h.join().unwrap())).collect();
+            format!("start={};{}", probe, lists.join("|"))
+        }
+        Some("burn") => {
+            // advance the process-wide counter (no hook needed: 2^32 cheap fetches) until serial `target` is handed out
+            let target = match arg(2) {
+                Some(t) if t >= 1 && t <= u32::MAX as u64 => t as u32,
+                _ => return "BADCASE".into(),
+            };
+            let probe = serial_via("hdr");
+            let mut count: u64 = 0;
+            let mut found = false;
+            // one full cycle of the counter at most (a serial that never comes back must not hang the run)
+            while count < (1u64 << 32) + 16 {
+                count += 1;
+                if serial_via("hdr") == target {
+                    found = true;
+                    break;
+                }
+            }
+            if found {
+                format!("start={};count={}", probe, count)
+            } else {
+                format!("start={};count=never", probe)
+            }
+        }
+        Some("clone") => {
+            let b = zbus::message::Message::method_call("/a", "M").unwrap();
+            let b2 = b.clone();
+            let m1 = b.build(&()).unwrap();
+            let m2 = b2.build(&()).unwrap();
+            format!("{},{}", m1.primary_header().serial_num().get(), m2.primary_header().serial_num().get())
+        }
+        _ => "BADCASE".into(),
+    }
+}
+
+// ------------------------------------------------------------------ C18: concurrent sends over a scripted write half
+#[derive(Debug)]
+struct Call {
+    task: usize,
+    offered: usize,
+    accepted: usize,
+    fds: Vec<(u64, u64)>,
+    bytes: Vec<u8>,
+}
+
+#[derive(Debug, Default)]
+struct WState {
+    /// answers: (number of times the call yields Pending first, max bytes accepted)
+    script: VecDeque<(u32, usize)>,
+    calls: Vec<Call>,
+    /// which sender task the harness scheduler is polling right now
+    cur_task: usize,
+}
+
+/// Returns Pending `n` times (waking itself), then Ready.
+struct YieldN(u32);
+impl Future for YieldN {
+    type Output = ();
+    fn poll(mut self: Pin<&mut Self>, cx: &mut Context<'_>) -> Poll<()> {
+        if self.0 == 0 {
+            Poll::Ready(())
+        } else {
+            self.0 -= 1;
+            cx.waker().wake_by_ref();
+            Poll::Pending
+        }
+    }
+}
+
+#[derive(Debug)]
+struct ScriptWrite(Arc<Mutex<WState>>);
+
+#[async_trait::async_trait]
+impl WriteHalf for ScriptWrite {
+    async fn sendmsg(&mut self, buf: &[u8], fds: &[BorrowedFd<'_>]) -> io::Result<usize> {
+        let (yields, max) = {
+            let mut st = self.0.lock().unwrap();
+            st.script.pop_front().unwrap_or((0, usize::MAX))
+        };
+        let ids: Vec<(u64, u64)> = fds.iter().map(|f| ident(*f)).collect();
+        // the transport is not ready: other tasks get to run while this call is suspended
+        YieldN(yields).await;
+        let n = max.max(1).min(buf.len());
+        let mut st = self.0.lock().unwrap();
+        let task = st.cur_task;
+        st.calls.push(Call { task, offered: buf.len(), accepted: n, fds: ids, bytes: buf[..n].to_vec() });
+        Ok(n)
+    }
+    async fn close(&mut self) -> io::Result<()> {
+        Ok(())
+    }
+    fn can_pass_unix_fd(&self) -> bool {
+        true
+    }
+}
+
+/// Read half that never delivers anything (the socket reader task is never ticked in W mode anyway).
+#[derive(Debug)]
+struct SilentRead;
+#[async_trait::async_trait]
+impl ReadHalf for SilentRead {
+    async fn recvmsg(&mut self, _buf: &mut [u8]) -> io::Result<(usize, Vec<OwnedFd>)> {
+        std::future::pending::<()>().await;
+        unreachable!()
+    }
+    fn can_pass_unix_fd(&self) -> bool {
+        true
+    }
+}
+
+struct SendSock(ScriptWrite);
+impl Socket for SendSock {
+    type ReadHalf = SilentRead;
+    type WriteHalf = ScriptWrite;
+    fn split(self) -> Split<SilentRead, ScriptWrite> {
+        Split::new(SilentRead, self.0)
+    }
+}
+
+struct Lcg(u64);
+impl Lcg {
+    fn next(&mut self, n: usize) -> usize {
+        self.0 = self.0.wrapping_mul(6364136223846793005).wrapping_add(1442695040888963407);
+        ((self.0 >> 33) as usize) % n
+    }
+}
+
+fn fdtok(ids: &[(u64, u64)], all: &[(u64, u64)]) -> String {
+    if ids.is_empty() {
+        return "-".into();
+    }
+    ids.iter()
+        .map(|id| match all.iter().position(|x| x == id) {
+            Some(i) => i.to_string(),
+            None => "?".into(),
+        })
+        .collect::<Vec<_>>()
+        .join(".")
+}
+
+fn wire(w: &[&str]) -> String {
+    if w.len() < 4 {
+        return "BADCASE".into();
+    }
+    let seed: u64 = match w[1].parse() {
+        Ok(s) => s,
+        Err(_) => return "BADCASE".into(),
+    };
+    let mut script = VecDeque::new();
+    if w[2] != "-" {
+        for t in w[2].split(',') {
+            let y = t.chars().take_while(|c| *c == 'p').count();
+            match t[y..].parse::<usize>() {
+                Ok(n) => script.push_back((y as u32, n)),
+                Err(_) => return "BADCASE".into(),
+            }
+        }
+    }
+    // build the programs: task i sends its messages one after the other
+    let mut all_ids: Vec<(u64, u64)> = vec![];
+    let mut keep: Vec<OwnedFd> = vec![];
+    let mut progs: Vec<Vec<zbus::Message>> = vec![];
+    for (ti, t) in w[3..].iter().enumerate() {
+        let mut prog = vec![];
+        if *t != "-" {
+            for (mi, d) in t.split(',').enumerate() {
+                let (len, k) = match d.split_once('f') {
+                    Some((a, b)) => (a.parse::<usize>(), b.parse::<usize>()),
+                    None => (d.parse::<usize>(), Ok(0)),
+                };
+                let (len, k) = match (len, k) {
+                    (Ok(a), Ok(b)) => (a, b),
+                    _ => return "BADCASE".into(),
+                };
+                let body: Vec<u8> = (0..len).map(|x| (x * 7 + ti * 31 + mi * 3) as u8).collect();
+                let mut fds: Vec<zvariant::Fd<'_>> = vec![];
+                for _ in 0..k {
+                    let f = fresh_fd();
+                    all_ids.push(ident(f.as_fd()));
+                    fds.push(zvariant::Fd::from(f.try_clone().expect("dup")));
+                    keep.push(f);
+                }
+                let b = zbus::message::Message::signal(format!("/t{}", ti), "v.I", format!("M{}", mi)).unwrap();
+                let m = if k == 0 { b.build(&(body,)) } else { b.build(&(body, fds)) };
+                match m {
+                    Ok(m) => prog.push(m),
+                    Err(_) => return "BUILD-ERR".into(),
+                }
+            }
+        }
+        progs.push(prog);
+    }
+    let shared = Arc::new(Mutex::new(WState { script, ..Default::default() }));
+    let sock = SendSock(ScriptWrite(shared.clone()));
+    let conn = match spin(
+        zbus::connection::Builder::authenticated_socket(sock, GUID)
+            .unwrap()
+            .p2p()
+            .internal_executor(false)
+            .build(),
+    ) {
+        Ok(Ok(c)) => c,
+        Ok(Err(e)) => return format!("BUILD-ERR:{}", err_class(&e)),
+        Err(h) => return h.into(),
+    };
+    // one future per task, polled in a seeded random order
+    let mut futs: Vec<Option<Pin<Box<dyn Future<Output = zbus::Result<()>>>>>> = vec![];
+    for prog in &progs {
+        let c = conn.clone();
+        let msgs: Vec<zbus::Message> = prog.clone();
+        futs.push(Some(Box::pin(async move {
+            for m in &msgs {
+                c.send(m).await?;
+            }
+            Ok(())
+        })));
+    }
+    let mut rng = Lcg(seed.wrapping_mul(2654435761).wrapping_add(12345));
+    let mut live: Vec<usize> = (0..futs.len()).collect();
+    let mut errors = vec![];
+    let mut polls: u64 = 0;
+    while !live.is_empty() {
+        polls += 1;
+        if polls > 5_000_000 {
+            errors.push("HANG".to_string());
+            break;
+        }
+        let k = rng.next(live.len());
+        let i = live[k];
+        shared.lock().unwrap().cur_task = i;
+        let done = match futs[i].as_mut() {
+            Some(f) => match poll_once(f.as_mut()) {
+                Poll::Ready(r) => {
+                    if let Err(e) = r {
+                        errors.push(format!("ERR{}:{}", i, err_class(&e)));
+                    }
+                    true
+                }
+                Poll::Pending => false,
+            },
+            None => true,
+        };
+        if done {
+            futs[i] = None;
+            live.swap_remove(k);
+        }
+    }
+    let st = shared.lock().unwrap();
+    let ptok: Vec<String> = progs
+        .iter()
+        .map(|p| {
+            if p.is_empty() {
+                "-".to_string()
+            } else {
+                p.iter()
+                    .map(|m| {
+                        let ids: Vec<(u64, u64)> = m.data().fds().iter().map(|f| ident(f.as_fd())).collect();
+                        format!("{}/{}", hcommon::hex(m.data().bytes()), fdtok(&ids, &all_ids))
+                    })
+                    .collect::<Vec<_>>()
+                    .join(",")
+            }
+        })
+        .collect();
+    let ctok: Vec<String> = st
+        .calls
+        .iter()
+        .map(|c| format!("{}:{}:{}:{}:{}", c.task, c.offered, c.accepted, fdtok(&c.fds, &all_ids), hcommon::hex(&c.bytes)))
+        .collect();
+    format!(
+        "{}#{}#{}",
+        ptok.join("|"),
+        if ctok.is_empty() { "-".to_string() } else { ctok.join(",") },
+        if errors.is_empty() { "-".to_string() } else { errors.join(",") }
+    )
+}
+
 fn main() {
     hcommon::run(|line| {
         let w: Vec<&str> = line.split(' ').filter(|x| !x.is_empty()).collect();
         match w.first().copied() {
             Some("F") => frame(&w),
+            Some("S") => serial(&w),
+            Some("W") => wire(&w),
             _ => "BADCASE".into(),
         }
     });
